@@ -33,18 +33,25 @@ class Events:
         self.fired_cap = False
         self.fired_label = None
         self.label = "-"
+        # name of the scoped construct of a long-lived (cached-module) template the
+        # render is currently inside ("" = none); set by the ``zone`` global
+        self.zone = ""
+        self.fired_zone = ""
         self.kinds = {}
         self.trace = []   # (kind, label, cap) per event
+        self.zones = []   # zone per event
 
     def hit(self, kind, cap=False):
         self.n += 1
         self.kinds[kind] = self.kinds.get(kind, 0) + 1
         self.trace.append((kind, self.label, cap))
+        self.zones.append(self.zone)
         if self.n == self.fault_at:
             self.fired = True
             self.fired_kind = kind
             self.fired_cap = cap
             self.fired_label = self.label
+            self.fired_zone = self.zone
             raise self.boom
 
 
